@@ -553,6 +553,38 @@ Global Instance read_play_spec ls s ln : Spec (read_play ls s ln) (ok4 ls s (rea
 Lemma read_def_str_ok ls s ln : ok4 ls s (read_def_str ls s ln).
 Proof. rd_start. unfold read_def_str in H. repeat brk H. all: rd_end H. Qed.
 Global Instance read_def_str_spec ls s ln : Spec (read_def_str ls s ln) (ok4 ls s (read_def_str ls s ln)) := read_def_str_ok ls s ln.
+Lemma skip_char_sfx c s : sf2 s (skip_char c s).
+Proof. rd_start. unfold skip_char in H. repeat brk H. all: rd_end H. Qed.
+Global Instance skip_char_spec c s : Spec (skip_char c s) (sf2 s (skip_char c s)) := skip_char_sfx c s.
+Lemma read_sysex_value_ok hex s ln : ok3 s (read_sysex_value hex s ln).
+Proof. rd_start. unfold read_sysex_value in H. repeat brk H. all: rd_end H. Qed.
+Global Instance read_sysex_value_spec hex s ln : Spec (read_sysex_value hex s ln) (ok3 s (read_sysex_value hex s ln)) := read_sysex_value_ok hex s ln.
+Lemma read_sysex_loop_ok hex : forall fuel s ln flag, (length s < fuel)%nat -> ok3 s (read_sysex_loop fuel hex s ln flag).
+Proof.
+  induction fuel as [|f IH]; intros s ln flag L; [lia|].
+  rd_start. cbn [read_sysex_loop] in H. repeat brk H.
+  all: try (match goal with
+            | E : read_sysex_loop ?f0 ?h0 ?s1 ?ln1 ?fl1 = _ |- _ =>
+                let Q := fresh "Q" in
+                assert (Q : Spec (read_sysex_loop f0 h0 s1 ln1 fl1) (ok3 s1 (read_sysex_loop f0 h0 s1 ln1 fl1)))
+                  by (apply IH; len_facts; lia);
+                try harvest E
+            end).
+  all: rd_end H.
+Qed.
+Global Instance read_sysex_loop_spec hex s ln flag :
+  Spec (read_sysex_loop (S (length s)) hex s ln flag) (ok3 s (read_sysex_loop (S (length s)) hex s ln flag))
+  := read_sysex_loop_ok hex (S (length s)) s ln flag (Nat.lt_succ_diag_r _).
+Lemma read_sysex_ok s ln : ok3 s (read_sysex s ln).
+Proof. rd_start. unfold read_sysex in H. repeat brk H. all: rd_end H. Qed.
+Global Instance read_sysex_spec s ln : Spec (read_sysex s ln) (ok3 s (read_sysex s ln)) := read_sysex_ok s ln.
+Lemma read_int_args_ok ls s ln : ok4 ls s (read_int_args ls s ln).
+Proof. rd_start. unfold read_int_args in H. repeat brk H. all: rd_end H. Qed.
+Global Instance read_int_args_spec ls s ln : Spec (read_int_args ls s ln) (ok4 ls s (read_int_args ls s ln)) := read_int_args_ok ls s ln.
+Lemma read_int_command_ok ls ty t1 s ln : ok4 ls s (read_int_command ls ty t1 s ln).
+Proof. rd_start. unfold read_int_command in H. repeat brk H. all: rd_end H. Qed.
+Global Instance read_int_command_spec ls ty t1 s ln : Spec (read_int_command ls ty t1 s ln) (ok4 ls s (read_int_command ls ty t1 s ln))
+  := read_int_command_ok ls ty t1 s ln.
 Lemma read_ext_command_raw_ok ls ty argt t1 t2 s ln : ok4 ls s (read_ext_command_raw ls ty argt t1 t2 s ln).
 Proof. rd_start. unfold read_ext_command_raw in H. repeat brk H. all: rd_end H. Qed.
 Global Instance read_ext_command_raw_spec ls ty argt t1 t2 s ln :
